@@ -1,5 +1,5 @@
 # replay of a bounded stand-in violation (C12): re-run native/c12_hw.py
 import sys
-print('Xunitary n=4 squeezers=repeated-on-all-pairs unitary=identity interleaved=True: raised IndexError: pop index out of range')
+print('Xunitary n=4 squeezers=repeated-on-all-pairs unitary=identity interleaved=True: compiled program prepares a different Gaussian state (max moment difference 0.675)')
 print('REPLAY-VIOLATION')
 sys.exit(1)
